@@ -121,6 +121,14 @@ fn known_for<'a>(known: &'a [Known], prop: &str, msg: &str) -> Option<&'a Known>
 
 /// class of a violation for grouping: the message with digits removed
 fn sig_of(msg: &str) -> String {
+    let msg = match msg.find("; threads:") {
+        Some(i) => &msg[..i],
+        None => msg,
+    };
+    let msg = match msg.find("; in flight") {
+        Some(i) => &msg[..i],
+        None => msg,
+    };
     let mut s = String::new();
     let mut last_hash = false;
     for c in msg.chars() {
@@ -402,7 +410,7 @@ fn seed_of(base: u64, i: u64) -> u64 {
     ((base & 0xFFFF_FFF) << 24).wrapping_add(i)
 }
 
-fn check_property(p: &Prop, tier: &str, runs_override: Option<u64>, only_scenario: Option<&str>) -> i32 {
+fn check_property(p: &Prop, tier: &str, runs_override: Option<u64>, only_scenario: Option<&str>, only_seed: Option<u64>) -> i32 {
     let t0 = Instant::now();
     let base = base_seed();
     let known = load_known();
@@ -419,6 +427,12 @@ fn check_property(p: &Prop, tier: &str, runs_override: Option<u64>, only_scenari
         let n = total_runs * s.1 as u64 / wsum.max(1) as u64;
         for i in 0..n.max(1) {
             jobs.push((s.0.to_string(), seed_of(base, i), Vec::new()));
+        }
+    }
+    if let Some(sd) = only_seed {
+        jobs.clear();
+        for s in &scen {
+            jobs.push((s.0.to_string(), sd, Vec::new()));
         }
     }
     // interleave scenarios so that a wall cap cuts all of them evenly
@@ -505,7 +519,7 @@ fn check_property(p: &Prop, tier: &str, runs_override: Option<u64>, only_scenari
             let rec = run_one(&r.scenario, r.seed, &r.extra_args, Some(&path));
             if !(is_bad(&rec.verdict) || rec.verdict == "livelock") || sig_of(&rec.msg) != sig_of(&r.msg) {
                 replay_info = format!("NOT REPRODUCED on re-run (got {}: {})", rec.verdict, rec.msg);
-            } else if r.verdict != "crash" && r.verdict != "livelock" {
+            } else if r.verdict != "livelock" {
                 let (b, a, tries) = minimise(&path, &sig_of(&r.msg), 300);
                 // re-record the minimised execution so that hash and trace tail match it
                 let tmp = format!("{}.min", path);
@@ -752,6 +766,7 @@ fn main() {
             let mut tier = std::env::var("VERIF_TIER").unwrap_or_else(|_| "quick".into());
             let mut runs = None;
             let mut only = None;
+            let mut only_seed = None;
             let mut i = 2;
             while i < args.len() {
                 match args[i].as_str() {
@@ -767,6 +782,10 @@ fn main() {
                         only = Some(args[i + 1].clone());
                         i += 1;
                     }
+                    "--only-seed" => {
+                        only_seed = Some(args[i + 1].parse().unwrap());
+                        i += 1;
+                    }
                     _ => {}
                 }
                 i += 1;
@@ -774,7 +793,7 @@ fn main() {
             if tier != "quick" && tier != "thorough" {
                 tier = "quick".into();
             }
-            std::process::exit(check_property(p, &tier, runs, only.as_deref()));
+            std::process::exit(check_property(p, &tier, runs, only.as_deref(), only_seed));
         }
     }
 }
